@@ -355,6 +355,32 @@ def make_stock(fd, cfg, cls_name, solver=None, lm=None, inflow=None, stock=None)
     return s_new
 
 
+def refused_then_corrected(hub, s, cfg, rng):
+    """a compute() that the lifetime model refuses (parameters it cannot evaluate, a setting its table builder refuses) on an object
+    that was computed before; the user catches that, corrects the cause, changes the driver and computes again.  The refused call is
+    not judged (whatever it does, it is made while the monitors pause); the compute() after it is judged like any other"""
+    lm = s.lifetime_model
+    drv = s.stock if type(s).__name__ == "StockDrivenDSM" else s.inflow
+    how = str(rng.choice(["parameters", "setting"]))
+    old_n = lm.n_pts_per_interval
+    with hub.pause():
+        try:
+            if how == "setting":
+                lm.n_pts_per_interval = int(rng.choice([11, 14]))
+            else:
+                lm.set_prms(**{pn: -np.abs(np.array(v, dtype=float)) for pn, v in cfg["truth"].items()})
+            with quiet():
+                s.compute()
+        except Exception:
+            pass
+        lm.n_pts_per_interval = old_n
+    drv.values[...] = np.asarray(drv.values) * rng.uniform(0.5, 2.0, size=drv.values.shape) + (1.0 if drv.values.dtype.kind == "f" else 1)
+    lm.set_prms(**{pn: np.array(v, dtype=float) * (1.2 if pn in ("mean", "weibull_scale") else 1.0) for pn, v in cfg["truth"].items()})
+    with quiet():
+        s.compute()
+    return how
+
+
 def _lm_other_label_order(fd, cfg):
     """a lifetime model over the letters of cfg's dims with the labels of one non-time dimension in another order; its parameters are
     plain arrays in THAT order, so that by label they are the parameters of cfg["truth"]"""
